@@ -73,6 +73,9 @@ def run(chk):
         # identity: rule + program + the rule-specific detail with code-block ids stripped
         import re
         detail = re.sub(r"#\d+", "", f["detail"])
+        if f["rule"] == "R4-handler-env":
+            # identity without the pc: a change of the code layout elsewhere must not turn a listed finding into a new one
+            detail = re.sub(r" at \d+", "", detail)
         chk.violation({"rule": f["rule"], "src": f["src"]}, detail[:200], f"[{f['rule']}] block {f['block']}: {f['detail'][:220]} :: {f['src'][-160:]}",
                       replay={"src": f["src"]}, expected="well-formed")
     chk.add(evaluations=tot["programs"], states=tot["states"], transitions=tot["transitions"], traces_validated_against_impl=tot["steps_checked"],
